@@ -77,6 +77,9 @@ def run(tier="quick", seed=0):
         for v in variants:
             for write in (True, False):
                 jobs.append({"kind": "clean", "spec": _spec_of(mode, True, True, thrown, v), "seed": seed + 3, "write": write})
+        # the rewrite itself fails (conversion of the table for the k-th rewrite raises): the previous prefix must survive
+        for kw in ((2, 5, 9) if not thorough else (1, 2, 3, 5, 7, 9, 12, 15)):
+            jobs.append({"kind": "write-fault", "spec": _spec_of(mode, True, True, thrown), "seed": seed + 7, "fault": ("write", kw)})
         jobs.append({"kind": "clean", "spec": _spec_of(mode, True, False, thrown), "seed": seed + 4})
         jobs.append({"kind": "clean", "spec": _spec_of(mode, False, True, thrown), "seed": seed + 4})
         jobs.append({"kind": "raise-nowrite", "spec": _spec_of(mode, True, True, thrown), "seed": seed + 5, "write": False,
